@@ -318,6 +318,9 @@ def run_in_child(pid, case, timeout=600):
             # also when the result file was written: heap corruption typically only kills the interpreter at exit
             return [("crash/signal%d" % (-p.returncode), p.stderr[-500:])], ["crashed"]
         if not os.path.exists(op):
+            if "Traceback (most recent call last)" not in (p.stderr or ""):
+                # the interpreter was terminated from native code (exit() in a C kernel) without a Python error
+                return [("crash/exit%d" % p.returncode, (p.stderr or "")[-500:])], ["crashed"]
             raise HarnessError("child failed (rc=%s): %s" % (p.returncode, p.stderr[-3000:]))
         r = json.load(open(op))
         if r.get("error"):
@@ -453,14 +456,15 @@ def _search(a, pid, mod, findings, binfo, t0):
                         q.kill()
                     raise HarnessError("inconclusive: shard %d silent beyond the hard limit (worker hung)" % s)
                 if not os.path.exists(op):
-                    if p.returncode is not None and p.returncode < 0 and os.path.exists(op + ".cur"):
+                    if p.returncode is not None and os.path.exists(op + ".cur") and (
+                            p.returncode < 0 or "Traceback (most recent call last)" not in (se or "")):
                         # the code under test killed the worker (segfault / abort): the case being run is the suspect
                         case = json.load(open(op + ".cur"))
                         results.append({"shard": s, "evals": 0, "labels": {"worker-crashed": 1}, "nontrivial": [],
                                         "samples": [], "known": {}, "budget_hit": False, "error": None,
                                         "exhaustive_done": False, "wall_s": 0, "buckets": {
-                                            "crash/signal%d" % -p.returncode: [1, case, (se or "")[-300:], len(canon(case))]},
-                                        "fail": {"case": case, "viol": [("crash/signal%d" % -p.returncode, (se or "")[-300:])]}})
+                                            "crash/rc%d" % p.returncode: [1, case, (se or "")[-300:], len(canon(case))]},
+                                        "fail": {"case": case, "viol": [("crash/rc%d" % p.returncode, (se or "")[-300:])]}})
                         continue
                     for _s, _o, q in procs:
                         q.kill()
